@@ -17,7 +17,7 @@ func init() {
 			"R2 the request body handed to the client is the request's Body itself, unconditionally, and errors from copying it to the responder or closing the stdin stream are propagated; " +
 			"R4 stderr records go to the client's stderr buffer and are never assigned to the stdout read buffer, and that buffer reaches only the returned log error; " +
 			"R5 the extension test that routes a request to the responder lower-cases both sides, and the split position folds case unless CaseSensitivePath; " +
-			"R3 (bounds obligations of the client code) is decided under C19.",
+			"R6 the record reader reports success only after consuming the record's content and padding together and hands back exactly buffer[:contentLength]; R3 (bounds obligations of the client code) is decided under C19.",
 		notDecided: "byte equality of params/body for all sizes (arithmetic of the flush thresholds); demultiplexing under arbitrary framings.",
 	})
 }
@@ -30,6 +30,7 @@ func runC13(r *Report, p *Program) {
 	c13R2(h)
 	c13R4(h)
 	c13R5(h)
+	c13R6(h)
 }
 
 func (p *Program) constInt(rel, name string) (int64, bool) {
@@ -356,4 +357,118 @@ func c13R5(h H) {
 		})
 		r.Check(okAll && n > 0, "R5", "fastcgi.Rule.splitPos/casefolded", sp.Pos(), "the split string is found regardless of letter case unless paths are case sensitive")
 	}
+}
+
+// c13R6: the record reader stays in step with the record stream.  A necessary condition of "responses are
+// demultiplexed intact under every framing": whenever read() reports success it has consumed exactly one record —
+// the 8-byte header and contentLength+paddingLength bytes after it.  Returning success (a nil error) without
+// having read the payload-and-padding leaves the padding (or payload) in the stream, where it is taken for the
+// next record's header.
+func c13R6(h H) {
+	r := h.r
+	r.Rule("R6", "record framing: in record.read every return whose error can be nil lies behind the io.ReadFull that consumes contentLength+paddingLength bytes (both fields enter the slice bound), the header is read by binary.Read into the record's own header before that, and the content handed back is a slice of the buffer just filled, bounded by contentLength", 3)
+	fn := h.fn("R6", fcPkg, "(*record).read")
+	if fn == nil {
+		return
+	}
+	isCL := func(v ssa.Value) bool { return readsField(v, "ContentLength") }
+	isPL := func(v ssa.Value) bool { return readsField(v, "PaddingLength") }
+	var payload []ssa.Instruction
+	allInstrs(fn, func(in ssa.Instruction) {
+		c := callOf(in)
+		if c == nil || calleeName(c) != "io.ReadFull" {
+			return
+		}
+		sl, ok := c.Args[1].(*ssa.Slice)
+		if !ok || sl.High == nil {
+			return
+		}
+		if derives(sl.High, isCL, flowOpts{}) && derives(sl.High, isPL, flowOpts{}) {
+			payload = append(payload, in)
+		}
+	})
+	if len(payload) == 0 {
+		r.Check(false, "R6", "fastcgi.(*record).read/payload-read", fn.Pos(), "no io.ReadFull over contentLength+paddingLength bytes found: content and padding are not consumed together")
+		return
+	}
+	r.Hold("R6", "fastcgi.(*record).read/payload-read", payload[0].Pos(), "content and padding are consumed by one io.ReadFull whose length is computed from both header fields")
+	isPayload := func(in ssa.Instruction) bool {
+		for _, p := range payload {
+			if in == p {
+				return true
+			}
+		}
+		return false
+	}
+	nonNilErr := func(v ssa.Value, rt *ssa.Return) bool {
+		if certainlyNonNil(v) {
+			return true
+		}
+		if u, ok := v.(*ssa.UnOp); ok {
+			if g, ok := u.X.(*ssa.Global); ok && g.Pkg != nil && !isModPkg(g.Pkg.Pkg.Path()) && types.Identical(g.Type().(*types.Pointer).Elem(), types.Universe.Lookup("error").Type()) {
+				return true // a standard-library error sentinel such as io.EOF
+			}
+		}
+		for _, g := range guardAtoms(fn, nil, rt) {
+			if x, nilWhenTrue, ok := nilCmp(g.Cond); ok && x == v && g.Pos != nilWhenTrue {
+				return true
+			}
+		}
+		return false
+	}
+	n := 0
+	for _, rt := range realReturns(fn) {
+		res := retResults(rt)
+		if len(res) != 2 {
+			continue
+		}
+		mayBeNil := false
+		for _, v := range valuesAt(fn, res[1], rt) {
+			if !nonNilErr(v, rt) {
+				mayBeNil = true
+			}
+		}
+		if !mayBeNil {
+			continue
+		}
+		n++
+		r.Check(mustPass(fn, rt, isPayload), "R6", sprintf("fastcgi.(*record).read/success-return#%d", n), rt.Pos(),
+			"a return that can report success has consumed the record's content and padding (otherwise the next header is read from the middle of this record)")
+		// what is handed back is the filled buffer cut at contentLength
+		okBuf := true
+		var facts []string
+		for _, v := range valuesAt(fn, res[0], rt) {
+			facts = append(facts, describe(v))
+			sl, ok := v.(*ssa.Slice)
+			if !ok || sl.High == nil || !derives(sl.High, isCL, flowOpts{}) || derives(sl.High, isPL, flowOpts{}) || (sl.Low != nil && !isZero(sl.Low)) {
+				okBuf = false
+			}
+		}
+		r.Check(okBuf, "R6", sprintf("fastcgi.(*record).read/content-slice#%d", n), rt.Pos(), "the content returned is buffer[:contentLength] (padding excluded, nothing skipped)", facts...)
+	}
+	if n == 0 {
+		r.Unresolve("R6", "record.read: no return that can report success")
+	}
+	// header first, into the record's own header
+	hdr := findCalls(fn, func(in ssa.Instruction) bool {
+		c := callOf(in)
+		return c != nil && calleeName(c) == "encoding/binary.Read"
+	})
+	okHdr := len(hdr) > 0
+	for _, p := range payload {
+		okHdr = okHdr && mustPass(fn, p, func(in ssa.Instruction) bool {
+			for _, x := range hdr {
+				if in == x {
+					return true
+				}
+			}
+			return false
+		})
+	}
+	r.Check(okHdr, "R6", "fastcgi.(*record).read/header-before-payload", fn.Pos(), "the fixed-size header is read (big-endian, binary.Read) before the payload whose length it announces")
+}
+
+func isZero(v ssa.Value) bool {
+	c, ok := constInt(v)
+	return ok && c == 0
 }
